@@ -328,7 +328,7 @@ def g4_task(payload):
                 object.__setattr__(pt, "exc_details", False)
                 try:
                     res = g1.verify_from_dict(cls, fn, dict(rec.globals), pt, view_factory=make_dec_view(cls, dialect), inline=table)
-                    obs.append(_ob(oid, res, rec, "REF_DEC", cls))
+                    obs.append(_ob(oid, res, rec, "REF_DEC", cls, dialect, src))
                     trusted.update(res["trusted"])
                 except (pysym.NotInSubset, ref.Unsupported) as e:
                     obs.append(dict(id=oid, status="undecided", detail=f"outside the verified subset: {e}", unit=rec.text[:800]))
@@ -343,7 +343,7 @@ def g4_task(payload):
                 try:
                     res = g2.verify_to_dict(cls, fn, dict(rec.globals), pp, ("cfgd", "cfg"), frozenset(),
                                             view_factory=make_enc_view(cls, dialect), inline=table)
-                    obs.append(_ob(oid, res, rec, "REF_ENC", cls))
+                    obs.append(_ob(oid, res, rec, "REF_ENC", cls, dialect, src))
                     trusted.update(res["trusted"])
                 except (pysym.NotInSubset, ref.Unsupported) as e:
                     obs.append(dict(id=oid, status="undecided", detail=f"outside the verified subset: {e}", unit=rec.text[:800]))
@@ -369,7 +369,91 @@ def g4_task(payload):
         build.drop_module(mod)
 
 
-def _ob(oid, res, rec, what, cls):
+def find_witness(cls, what, dialect="default", src=None):
+    """replay: type-directed samples through the real to_dict / from_dict against the reference evaluated
+    concretely (REF_ENC / REF_DEC source compiled as ordinary Python)"""
+    import dataclasses as _dc
+
+    import typing_extensions
+
+    from . import samples
+
+    try:
+        hints = typing_extensions.get_type_hints(cls, include_extras=True)
+        bases = samples.dataclass_instances(cls)
+    except Exception:
+        return None
+    if not bases:
+        return None
+    base = bases[0]
+    genf = _genf(dialect)
+
+    def compile_ref(t, direction):
+        gen = genf()
+        gen.owner = gen.owner or cls
+        e = gen.dec(t, "x") if direction == "dec" else gen.enc(t, "x")
+        _ref_env(gen)
+        return eval("lambda x: " + e, gen.ns)
+
+    for f in _dc.fields(cls):
+        t = hints[f.name]
+        try:
+            enc_ref = compile_ref(t, "enc")
+            dec_ref = compile_ref(t, "dec") if what == "REF_DEC" else None
+        except Exception:
+            continue
+        vals = samples.instances(t, cls)
+        if what == "REF_ENC":
+            for v in vals:
+                try:
+                    exp = enc_ref(v)
+                except Exception:
+                    continue
+                try:
+                    inst = _dc.replace(base, **{f.name: v})
+                    got = inst.to_dict()
+                    got = got.get(f.name, "<key missing>")
+                    why = None if samples.same(got, exp) else f"to_dict()[{f.name!r}] = {got!r}, the reference gives {exp!r}"
+                except Exception as e:  # noqa
+                    why = f"to_dict() raised {type(e).__name__}: {str(e)[:160]}, the reference gives {exp!r}"
+                if why:
+                    return {"confirmed": True, "source": src, "input": f"C({f.name}={v!r})", "why": why}
+        else:
+            try:
+                base_d = base.to_dict()
+            except Exception:
+                base_d = {}
+            cands = []
+            for v in vals:
+                try:
+                    d = enc_ref(v)
+                except Exception:
+                    continue
+                cands.append(d)
+                cands += samples.mutate(d)
+            cands += samples.JUNK
+            for d in cands:
+                try:
+                    exp, exp_exc = dec_ref(d), None
+                except Exception as e:  # noqa
+                    exp, exp_exc = None, e
+                try:
+                    got, got_exc = getattr(cls.from_dict(dict(base_d, **{f.name: d})), f.name), None
+                except Exception as e:  # noqa
+                    got, got_exc = None, e
+                why = None
+                if exp_exc is not None and got_exc is None:
+                    why = f"from_dict returned {f.name}={got!r}, the reference raises {type(exp_exc).__name__}"
+                elif exp_exc is None and got_exc is not None:
+                    why = f"from_dict raised {type(got_exc).__name__}: {str(got_exc)[:160]}, the reference gives {exp!r}"
+                elif exp_exc is None and not samples.same(got, exp):
+                    why = f"from_dict gives {f.name}={got!r} ({type(got).__name__}), the reference gives {exp!r} ({type(exp).__name__})"
+                if why:
+                    return {"confirmed": True, "source": src, "input": f"{{{f.name!r}: {d!r}}}", "why": why}
+    return None
+
+
+def _ob(oid, res, rec, what, cls, dialect="default", src=None):
     bad = [v for v in res["verdicts"] if v.status != "proved"]
     ob = dict(id=oid, unit=f"C.{'from' if what == 'REF_DEC' else 'to'}_dict", paths=res["paths"], queries=res["queries"],
               solver_s=round(res["solver_s"], 4), backend="z3", sample=rec.text[:1200])
@@ -381,6 +465,11 @@ def _ob(oid, res, rec, what, cls):
         ob["detail"] = f"{len(bad)}/{len(res['verdicts'])} paths disagree with {what}; first: {v0.path.kind} {v0.path.value!r} {v0.detail}"[:1200]
         ob["solver_output"] = [f"{v.name}: {v.status} {v.detail}" for v in bad][:20]
         ob["witness"] = None
+        if what in ("REF_ENC", "REF_DEC") and (isinstance(dialect, str) or callable(dialect)):
+            try:
+                ob["witness"] = find_witness(cls, what, dialect, src)
+            except Exception as e:  # noqa
+                ob["witness_error"] = f"{type(e).__name__}: {e}"[:200]
     if not res["cover"]:
         ob["status"] = "refuted" if ob["status"] == "proved" else ob["status"]
         ob["detail"] = (ob.get("detail", "") + " no feasible returning path (vacuous)").strip()
